@@ -397,6 +397,9 @@ type inject struct {
 	Sys  string `json:"sys"`
 	When string `json:"when"` // strace when= expression (per-thread invocation count)
 	Kill bool   `json:"kill"`
+	// Errno of an injected failure (default EIO). Error handling that looks at the errno (os.IsNotExist, errors.Is(err,
+	// fs.ErrNotExist), …) behaves differently for ENOENT than for EIO/EACCES/ENOSPC, so the harness varies it.
+	Errno string `json:"errno,omitempty"`
 }
 
 type sysop struct {
@@ -545,6 +548,9 @@ func runTraced(bin string, args []string, stdin string, dir string, inj []inject
 	sargs := []string{"-f", "-ff", "-o", filepath.Join(scratch, "st"), "-e", "trace=" + traced, "-e", "signal=none", "-s", "0"}
 	for _, i := range inj {
 		what := "error=EIO"
+		if i.Errno != "" {
+			what = "error=" + i.Errno
+		}
 		if i.Kill {
 			what = "signal=KILL"
 		}
@@ -629,6 +635,7 @@ type fault struct {
 	Kind  string `json:"kind"` // fail | kill | none | all-renames | all-renames+cleanups
 	Sys   string `json:"sys,omitempty"`
 	Label string `json:"label,omitempty"` // the operation, e.g. "remove:z:r0_v16.00000.zoekt" (stored files: resolved by a baseline run)
+	Errno string `json:"errno,omitempty"` // errno of the injected failure (default EIO)
 }
 
 type job struct {
@@ -887,7 +894,7 @@ func (r *runner) run(j *job) {
 		}
 		for _, o := range base.trace.ops {
 			if o.label == j.flt.Label || (strings.HasSuffix(j.flt.Label, "*") && strings.HasPrefix(o.label, strings.TrimSuffix(j.flt.Label, "*"))) {
-				j.inj = []inject{{Sys: o.sys, When: strconv.Itoa(o.nth), Kill: j.flt.Kind == "kill"}}
+				j.inj = []inject{{Sys: o.sys, When: strconv.Itoa(o.nth), Kill: j.flt.Kind == "kill", Errno: j.flt.Errno}}
 				break
 			}
 		}
@@ -1056,6 +1063,17 @@ func faultJobs(sc scenario, base traceResult, r *gen.Rand, perScenario int) []*j
 			cands = append(cands, cand{fault{Op: i, Kind: kind, Sys: o.sys, Label: o.label},
 				[]inject{{Sys: o.sys, When: strconv.Itoa(o.nth), Kill: kind == "kill"}}})
 		}
+		// the same failure with other errnos. ENOENT is not injected into stat / the read of the sidecar: there it is
+		// the documented answer "the file is absent" (IndexFilePaths, parseMetadata), which the model only covers when the
+		// file really is absent (the natural case); everywhere else the code must treat every errno as a failure.
+		isProbe := o.sys == "newfstatat" || strings.HasPrefix(o.label, "open:m:")
+		for _, errno := range []string{"ENOENT", []string{"EACCES", "ENOSPC"}[i%2]} {
+			if errno == "ENOENT" && isProbe {
+				continue
+			}
+			cands = append(cands, cand{fault{Op: i, Kind: "fail-" + errno, Sys: o.sys, Label: o.label, Errno: errno},
+				[]inject{{Sys: o.sys, When: strconv.Itoa(o.nth), Errno: errno}}})
+		}
 	}
 	// several failures in one run: every final rename of explode fails; and additionally every clean-up removal
 	if sc.Cmd == "explode" {
@@ -1115,9 +1133,20 @@ func faultJobs(sc scenario, base traceResult, r *gen.Rand, perScenario int) []*j
 			break
 		}
 	}
+	// errno-dependent error handling: ENOENT at the last rename into place (explode: of a simple shard; merge: of the
+	// compound shard) — after the point of no return, "does not exist" must not be read as "nothing to do"
+	extra := 0
+	for i := len(cands) - 1; i >= 0; i-- {
+		if cands[i].f.Kind == "fail-ENOENT" && strings.HasPrefix(cands[i].f.Label, "rename:t:") {
+			taken[i] = true
+			extra++
+			break
+		}
+	}
+	perScenario += extra
 	for _, pred := range []func(cand) bool{
 		func(c cand) bool { return c.f.Kind == "kill" && mutation(c) },
-		func(c cand) bool { return c.f.Kind == "fail" && (c.f.Sys == "renameat" || c.f.Sys == "unlinkat") },
+		func(c cand) bool { return strings.HasPrefix(c.f.Kind, "fail") && (c.f.Sys == "renameat" || c.f.Sys == "unlinkat") },
 		func(c cand) bool { return true },
 		func(c cand) bool { return true },
 	} {
